@@ -25,6 +25,8 @@ def arithmetic_over(e, leaf):
             return ok(x[2])
         if x[0] == "cast":
             return ok(x[2])
+        if x[0] == "call" and x[1].rsplit("::", 1)[-1] in ("min", "max", "saturating_add", "saturating_sub") and all(ok(a) for a in x[2]):
+            return True
         return False
     return ok(e) and seen[0]
 
